@@ -47,12 +47,12 @@ let handle (p : string) : string =
   | ["su"; w; st; h] ->
     let w = ios w and strict = st = "1" and t = txt h in
     let r = dec_u w strict t in
-    res_u r ^ ";" ^ cls_dec "su" w strict t (r <> None)
+    res_u r ^ ";od=" ^ string_of_n (or_default r (n_of_int 42)) ^ ";" ^ cls_dec "su" w strict t (r <> None)
       ((dec_u 64 strict t <> None) || (string_to_i64 strict t <> None)) (dec_u w false t <> None)
   | ["ss"; w; st; h] ->
     let w = ios w and strict = st = "1" and t = txt h in
     let r = dec_s w strict t in
-    res_s r ^ ";" ^ cls_dec "ss" w strict t (r <> None) (dec_s 64 strict t <> None) (dec_s w false t <> None)
+    res_s r ^ ";od=" ^ string_of_z (or_default r (z_of_int 42)) ^ ";" ^ cls_dec "ss" w strict t (r <> None) (dec_s 64 strict t <> None) (dec_s w false t <> None)
   | ["hu"; w; h] ->
     let w = ios w and t = txt h in
     let r = hex_u w t in
@@ -74,11 +74,13 @@ let handle (p : string) : string =
   | ["rtu"; w; v] ->
     let w = ios w and v = n_of_string v in
     let t = int_to_string_u v in
-    Printf.sprintf "t=%s;%s;class=rtu%d" (hx t) (res_u (dec_u w true t)) w
+    let r = dec_u w true t in
+    Printf.sprintf "t=%s;%s;od=%s;class=rtu%d" (hx t) (res_u r) (string_of_n (or_default r (n_of_int 42))) w
   | ["rts"; w; v] ->
     let w = ios w and v = z_of_string v in
     let t = int_to_string_s v in
-    Printf.sprintf "t=%s;%s;class=rts%d" (hx t) (res_s (dec_s w true t)) w
+    let r = dec_s w true t in
+    Printf.sprintf "t=%s;%s;od=%s;class=rts%d" (hx t) (res_s r) (string_of_z (or_default r (z_of_int 42))) w
   | ["rthu"; w; v] ->
     let w = ios w and v = z_of_string v in
     let t = to_hex_w (n_of_int w) false false v and p = to_hex_w (n_of_int w) false true v in
@@ -110,11 +112,11 @@ let handle (p : string) : string =
       (match uid_from_string s with None -> "ok=0" | Some u -> "ok=1;v=" ^ string_of_n (uid_n u))
   | ["mac"; h] ->
     (match mac_from_string (txt h) with
-     | None -> Printf.sprintf "ok=0;class=mac:reject-%dfields"
+     | None -> Printf.sprintf "ok=0;ep=1;class=mac:reject-%dfields"
                  (List.length (string_split [n_of_int 58; n_of_int 46] (txt h)))
      | Some m ->
        let s = mac_to_string m in
-       Printf.sprintf "ok=1;v=%s;s=%s;rt=%s;class=mac:accept" (hx m) (hx s) (bool01 (mac_from_string s = Some m)))
+       Printf.sprintf "ok=1;v=%s;s=%s;rt=%s;ep=1;class=mac:accept" (hx m) (hx s) (bool01 (mac_from_string s = Some m)))
   | ["macv"; h] ->
     let s = mac_to_string (txt h) in
     Printf.sprintf "s=%s;%s;class=macv" (hx s)
@@ -133,18 +135,18 @@ let handle (p : string) : string =
     let t = txt h in
     let raw = match inet_pton4 (cstr t) with None -> "none" | Some a -> hx a in
     (match ipv4_from_string inet_pton4 t with
-     | None -> Printf.sprintf "lraw=%s;ok=0;class=ip4:reject" raw
-     | Some a -> Printf.sprintf "lraw=%s;ok=1;a=%s;class=ip4:accept" raw (hx a))
+     | None -> Printf.sprintf "lraw=%s;ok=0;ep=1;class=ip4:reject" raw
+     | Some a -> Printf.sprintf "lraw=%s;ok=1;a=%s;ep=1;class=ip4:accept" raw (hx a))
   | ["ip4v"; h] ->
     let s = ipv4_to_string inet_ntop4 (txt h) in
     Printf.sprintf "s=%s;%s;class=ip4v" (hx s)
       (match ipv4_from_string inet_pton4 s with None -> "ok=0" | Some a -> "ok=1;a=" ^ hx a)
   | ["sa"; h] ->
     (match sockaddr_from_string inet_pton4 (txt h) with
-     | None -> "ok=0;class=sa:reject"
+     | None -> "ok=0;ep=1;class=sa:reject"
      | Some (a, port) ->
        let s = sockaddr_to_string inet_ntop4 (a, port) in
-       Printf.sprintf "ok=1;a=%s;p=%s;s=%s;rt=%s;class=sa:accept" (hx a) (string_of_n port) (hx s)
+       Printf.sprintf "ok=1;a=%s;p=%s;s=%s;rt=%s;ep=1;class=sa:accept" (hx a) (string_of_n port) (hx s)
          (bool01 (sockaddr_from_string inet_pton4 s = Some (a, port))))
   | ["sav"; h; port] ->
     let s = sockaddr_to_string inet_ntop4 (txt h, n_of_string port) in
@@ -157,8 +159,8 @@ let handle (p : string) : string =
     let t = txt h in
     let raw = match ipv6_of_text (cstr t) with None -> "none" | Some a -> hx a in
     (match ipv6_from_string t with
-     | None -> Printf.sprintf "lraw=%s;ok=0;class=ip6:reject" raw
-     | Some a -> Printf.sprintf "lraw=%s;ok=1;a=%s;s=%s;class=ip6:accept%s" raw (hx a) (hx (ipv6_to_text a))
+     | None -> Printf.sprintf "lraw=%s;ok=0;ep=1;class=ip6:reject" raw
+     | Some a -> Printf.sprintf "lraw=%s;ok=1;a=%s;s=%s;ep=1;class=ip6:accept%s" raw (hx a) (hx (ipv6_to_text a))
                    (if v4_form (words_of_bytes a) then "-v4" else ""))
   | ["ip6v"; h] ->
     let a = txt h in
